@@ -146,7 +146,20 @@ declarations:
   - decl: Acc *self() +owner(library)
 """
 
-LIBS = {"geom": LIB_CXX, "clib": LIB_C, "strs": LIB_STR, "plain": LIB_PLAIN, "nest": LIB_NEST}
+LIB_NSFIELD = """
+library: nsf
+cxx_header: nsf.hpp
+namespace: outer work
+declarations:
+- decl: int first(int a)
+- decl: double second(double x, int n = 2)
+- decl: class Tool
+  declarations:
+  - decl: Tool()
+  - decl: int use(int k)
+"""
+
+LIBS = {"geom": LIB_CXX, "clib": LIB_C, "strs": LIB_STR, "plain": LIB_PLAIN, "nest": LIB_NEST, "nsf": LIB_NSFIELD}
 
 
 def static_is_scan(names):
